@@ -325,7 +325,7 @@ register("C02", c02, c02_item)
 
 
 # =============================================================================== C03
-ENCODINGS = ["int", "float", "mixed", "neg", "big", "gap", "bool", "frac", "huge"]
+ENCODINGS = ["int", "float", "mixed", "neg", "big", "gap", "bool", "frac", "huge", "near", "unit"]
 
 
 def bits_equal(A, B):
